@@ -296,6 +296,27 @@ func chainTx(n *Node, contracts *[]common.Address, t M) ([]byte, error) {
 			return nil, err
 		}
 		return cosmos(800000, msg)
+	case "gov_submit2":
+		// a text proposal whose deposit has two denominations
+		content := govv1beta1.NewTextProposal("t2", "d2")
+		dep := sdk.NewCoins(coin("5000"), sdk.NewCoin("utest", sdkmath.NewInt(num(t, "amt2", 777))))
+		msg, err := govv1beta1.NewMsgSubmitProposal(content, dep, from.Addr)
+		if err != nil {
+			return nil, err
+		}
+		return cosmos(500000, msg)
+	case "eth_send_mod":
+		// an EVM value transfer whose recipient is a module account
+		mods := []string{"distribution", "bonded_tokens_pool", "not_bonded_tokens_pool", "gov", "fee_collector", "erc20", "ucdao"}
+		to := common.BytesToAddress(authtypes.NewModuleAddress(mods[int(num(t, "mod", 0))%len(mods)]))
+		bz, _, err := n.EthTxFor(from, &to, coin(str(t, "amt")).Amount.BigInt(), 60000, nil)
+		return bz, err
+	case "convert_into_vesting":
+		a := sdk.NewCoins(coin(str(t, "amt")))
+		lock := sdkvesting.Periods{{Length: num(t, "lock", 300), Amount: a}}
+		vest := sdkvesting.Periods{{Length: num(t, "vest", 5), Amount: a}}
+		return cosmos(900000, vestingtypes.NewMsgConvertIntoVestingAccount(from.Addr, w.Acct(str(t, "to")).Addr, n.Time.Add(time.Duration(num(t, "startOff", 0))*time.Second), lock, vest,
+			t["merge"] == true, t["stake"] == true, val()))
 	case "bad_nonce":
 		// a transaction that the ante handler rejects (stale sequence): exercises the failure path
 		acc := n.App.AccountKeeper.GetAccount(n.Ctx(), from.Addr)
